@@ -1,4 +1,5 @@
 import Csverif.Props.C01
+import Csverif.Proofs.ObjTree
 /-
 C04 — non-conflicting concurrent changes merge exactly: the reference semantics `applyOp`
 (Model/Spec/Sync.lean) of user operations on disjoint objects is order independent, so the tree the
@@ -338,3 +339,283 @@ example : Interleaving [.rename ["a"] ["c"], .write ["c", "f"] 4] [.create ["b",
   .right _ (.left _ (.right _ (.left _ .nil)))
 
 end CS.Spec
+
+/-! ## C04 by OBJECT identity (Model/Spec/ObjTree.lean)
+
+The statements above read "different files and folders" by PATH: the two sides' paths are unrelated.
+The statements below read it by OBJECT: no object is operated on by both sides, while the PATHS may
+be related — one side renames or moves a folder, the other side creates, renames, edits a file inside
+it or moves a file into it; one side empties a folder into a folder the other side renames, and
+deletes the emptied folder.  The monitor layer `monc04` computes `objMerge`, projects it to paths
+(`toPaths`) and compares both sides exactly (`objMergeOk`). -/
+namespace CS.Spec.Obj
+open CS.Spec
+set_option linter.unusedVariables false
+
+/-! ### one pair of operations -/
+
+/-- two operations on different objects commute: both orders give literally the same object tree.
+    No validity is needed, only unique (ascending) ids. -/
+theorem objOp_comm (t : OTree) (hs : Sorted t) (a b : OOp) (hd : disjointOp a b = true) :
+    applyOp (applyOp t a) b = applyOp (applyOp t b) a :=
+  applyOp_comm hs a b (by simpa [disjointOp] using hd)
+
+/-- the exact side condition under which both orders are VALID histories: for two operations on
+    different objects, each valid in `t`, `Compatible` (no name clash, neither deletes the folder the
+    other puts its object into, neither move puts the other object beneath itself) holds iff each
+    is still valid after the other. -/
+theorem compatible_iff (t : OTree) (a b : OOp) (hva : valid t a = true) (hvb : valid t b = true)
+    (hd : disjointOp a b = true) :
+    Compatible t a b = true ↔ (valid (applyOp t a) b = true ∧ valid (applyOp t b) a = true) := by
+  have hne : a.target ≠ b.target := by simpa [disjointOp] using hd
+  constructor
+  · intro h
+    simp only [Compatible, Bool.and_eq_true, Bool.not_eq_true'] at h
+    obtain ⟨⟨⟨⟨h1, h2⟩, h3⟩, h4⟩, h5⟩ := h
+    exact ⟨compatible_valid_after hva hvb hne h1 h2 h3 h4,
+      compatible_valid_after hvb hva hne.symm (by rw [clash_comm]; exact h1) h3 h2 h5⟩
+  · rintro ⟨hab, hba⟩
+    obtain ⟨h1, h2, h4⟩ := valid_after_no_conflict hva hne hab
+    obtain ⟨_, h3, h5⟩ := valid_after_no_conflict hvb hne.symm hba
+    simp only [Compatible, h1, h2, h3, h4, h5, Bool.not_false, Bool.and_self]
+
+/-- `objOp_comm` with validity: on a well-formed tree two compatible operations on different objects
+    can be applied in either order, both orders are valid histories, give the same tree, and it is
+    well formed -/
+theorem objOp_comm_valid (t : OTree) (hw : t.WF) (a b : OOp) (hva : valid t a = true) (hvb : valid t b = true)
+    (hd : disjointOp a b = true) (hc : Compatible t a b = true) :
+    validSeq t [a, b] = true ∧ validSeq t [b, a] = true ∧
+    applyOps t [a, b] = applyOps t [b, a] ∧ (applyOps t [a, b]).WF := by
+  obtain ⟨hab, hba⟩ := (compatible_iff t a b hva hvb hd).mp hc
+  refine ⟨by simp [validSeq, hva, hab], by simp [validSeq, hvb, hba], objOp_comm t hw.sorted a b hd, ?_⟩
+  exact (hw.applyOp hva).applyOp hab
+
+/-- the three conflicts are genuine (kernel-checked): in each case the two operations are about
+    different objects and each is valid, but one order is not a valid history -/
+theorem conflict_name_clash :
+    let t : OTree := [⟨1, none, "d", .dir⟩, ⟨2, none, "f", .file 1⟩]
+    let a : OOp := .move 2 (some 1) "x"
+    let b : OOp := .create 3 (some 1) "x" 2
+    wfB t = true ∧ disjointOp a b = true ∧ valid t a = true ∧ valid t b = true ∧
+    Compatible t a b = false ∧ valid (applyOp t a) b = false ∧ valid (applyOp t b) a = false := by
+  decide
+
+theorem conflict_delete_vs_put_inside :
+    let t : OTree := [⟨1, none, "d", .dir⟩, ⟨2, none, "f", .file 1⟩]
+    let a : OOp := .delete 1
+    let b : OOp := .move 2 (some 1) "f"
+    wfB t = true ∧ disjointOp a b = true ∧ valid t a = true ∧ valid t b = true ∧
+    Compatible t a b = false ∧ valid (applyOp t a) b = false ∧ valid (applyOp t b) a = false := by
+  decide
+
+theorem conflict_move_cycle :
+    let t : OTree := [⟨1, none, "a", .dir⟩, ⟨2, none, "b", .dir⟩]
+    let a : OOp := .move 1 (some 2) "a"
+    let b : OOp := .move 2 (some 1) "b"
+    wfB t = true ∧ disjointOp a b = true ∧ valid t a = true ∧ valid t b = true ∧
+    Compatible t a b = false ∧ valid (applyOp t a) b = false ∧ valid (applyOp t b) a = false := by
+  decide
+
+/-- … whereas a creation inside a folder and a move of that folder are compatible: they touch
+    different objects although the paths are related -/
+theorem create_inside_vs_move_compatible :
+    let t : OTree := [⟨1, none, "e", .dir⟩, ⟨2, some 1, "f", .file 1⟩]
+    let a : OOp := .move 1 none "e2"
+    let b : OOp := .create 3 (some 1) "g" 2
+    wfB t = true ∧ disjointOp a b = true ∧ valid t a = true ∧ valid t b = true ∧ Compatible t a b = true ∧
+    toPaths (applyOps t [a, b]) = [(["e2"], .dir), (["e2", "f"], .file 1), (["e2", "g"], .file 2)] := by
+  decide
+
+/-! ### sequences and interleavings -/
+
+theorem compatibleSeqs_iff (t : OTree) (as bs : List OOp) :
+    CompatibleSeqs t as bs = true ↔
+      (∀ a ∈ as, ∀ b ∈ bs, a.target ≠ b.target) ∧ ∀ m, Interleaving as bs m → validSeq t m = true := by
+  simp only [CompatibleSeqs, Bool.and_eq_true, disjointSeqs_iff, allValidF_iff _ t as bs (Nat.le_refl _), AllValid]
+
+theorem compatibleSeqs_comm (t : OTree) (as bs : List OOp) : CompatibleSeqs t as bs = CompatibleSeqs t bs as := by
+  rw [Bool.eq_iff_iff, compatibleSeqs_iff, compatibleSeqs_iff]
+  constructor
+  · rintro ⟨h1, h2⟩
+    exact ⟨fun b hb a ha => (h1 a ha b hb).symm, fun m hm => h2 m hm.symm⟩
+  · rintro ⟨h1, h2⟩
+    exact ⟨fun a ha b hb => (h1 b hb a ha).symm, fun m hm => h2 m hm.symm⟩
+
+/-- whatever the real-time interleaving of the two sides' operations was, it was a valid history and
+    the object tree it produced is the merged tree `objMerge`, which is well formed -/
+theorem objMerge_order_independent (t : OTree) (hw : t.WF) (as bs m : List OOp)
+    (hc : CompatibleSeqs t as bs = true) (hm : Interleaving as bs m) :
+    validSeq t m = true ∧ applyOps t m = objMerge t as bs ∧ (applyOps t m).WF := by
+  obtain ⟨hd, hv⟩ := (compatibleSeqs_iff t as bs).mp hc
+  exact ⟨hv m hm, applyOps_interleaving hw.sorted hd hv hm, hw.applyOps (hv m hm)⟩
+
+/-- in particular the merged tree does not depend on which side is applied first -/
+theorem objMerge_comm (t : OTree) (hw : t.WF) (as bs : List OOp) (hc : CompatibleSeqs t as bs = true) :
+    objMerge t as bs = objMerge t bs as := by
+  have h1 := (objMerge_order_independent t hw as bs _ hc (Interleaving.append as bs)).2.1
+  have h2 := (objMerge_order_independent t hw as bs _ hc (Interleaving.append' as bs)).2.1
+  rw [← h2, applyOps_append]
+  rfl
+
+theorem objMerge_WF (t : OTree) (hw : t.WF) (as bs : List OOp) (hc : CompatibleSeqs t as bs = true) :
+    (objMerge t as bs).WF := by
+  have h := objMerge_order_independent t hw as bs _ hc (Interleaving.append as bs)
+  rw [h.2.1] at h
+  exact h.2.2
+
+/-- every pair of operations of compatible sequences is `Compatible` in the tree in which the two
+    meet (the sequence-level premise implies the pairwise one, along the whole grid) -/
+theorem compatibleSeqs_pairwise (t : OTree) (as bs : List OOp) (hc : CompatibleSeqs t as bs = true) :
+    compatGrid t as bs = true := by
+  obtain ⟨hd, hv⟩ := (compatibleSeqs_iff t as bs).mp hc
+  have hv' : AllValid t as bs := hv
+  clear hc hv
+  induction as generalizing t with
+  | nil => rfl
+  | cons a as ih =>
+    simp only [compatGrid, Bool.and_eq_true]
+    refine ⟨?_, ih (applyOp t a) (fun x hx y hy => hd x (List.mem_cons_of_mem _ hx) y hy) hv'.left.2⟩
+    have hda : ∀ b ∈ bs, a.target ≠ b.target := fun b hb => hd a List.mem_cons_self b hb
+    clear ih hd
+    induction bs generalizing t with
+    | nil => rfl
+    | cons b bs ihb =>
+      simp only [compatRow, Bool.and_eq_true]
+      have hl := hv'.left
+      have hr := hv'.right
+      refine ⟨?_, ihb (applyOp t b) hr.2 (fun x hx => hda x (List.mem_cons_of_mem _ hx))⟩
+      have hne := hda b List.mem_cons_self
+      exact (compatible_iff t a b hl.1 hr.1 (by simpa [disjointOp] using hne)).mpr ⟨hl.2.right.1, hr.2.left.1⟩
+
+/-- and conversely (the lift of `objOp_comm`/`compatible_iff` to sequences): if each side's own sequence is
+    valid, the sequences are about different objects, and every pair of operations is `Compatible` in
+    the tree in which the two meet, then the sequences are compatible — every interleaving is a valid
+    history, and (by `objMerge_order_independent`) yields the same merged tree -/
+theorem compatibleSeqs_of_pairwise (t : OTree) (hw : t.WF) (as bs : List OOp) (hva : validSeq t as = true)
+    (hvb : validSeq t bs = true) (hd : disjointSeqs as bs = true) (hg : compatGrid t as bs = true) :
+    CompatibleSeqs t as bs = true := by
+  rw [compatibleSeqs_iff]
+  exact ⟨disjointSeqs_iff.mp hd, compatGrid_allValid hw.sorted hva hvb (disjointSeqs_iff.mp hd) hg⟩
+
+/-- so the two forms of C04's premise agree -/
+theorem compatibleSeqs_iff_pairwise (t : OTree) (hw : t.WF) (as bs : List OOp) :
+    CompatibleSeqs t as bs = true ↔
+      (validSeq t as = true ∧ validSeq t bs = true ∧ disjointSeqs as bs = true ∧ compatGrid t as bs = true) := by
+  constructor
+  · intro hc
+    obtain ⟨hd, hv⟩ := (compatibleSeqs_iff t as bs).mp hc
+    have hv' : AllValid t as bs := hv
+    exact ⟨hv'.seq_left, hv'.symm.seq_left, disjointSeqs_iff.mpr hd, compatibleSeqs_pairwise t as bs hc⟩
+  · rintro ⟨h1, h2, h3, h4⟩
+    exact compatibleSeqs_of_pairwise t hw as bs h1 h2 h3 h4
+
+/-! ### paths in the merged tree -/
+
+/-- projection: the path view of a well-formed object tree is a well-formed path tree of
+    `Spec/Sync.lean` (every path listed once), so `sameAs` / `converged` apply to it -/
+theorem toPaths_wf (t : OTree) (hw : t.WF) : (toPaths t).WF := toPaths_WF hw.sorted hw.sib
+
+/-- … and it contains exactly the objects: each at its derived path with its kind, nothing else -/
+theorem toPaths_exact (t : OTree) (hw : t.WF) (p : RPath) (k : Node) :
+    (toPaths t).get p = some k ↔ ∃ o ∈ t, pathOf t o.id = some p ∧ o.kind = k := by
+  rw [Tree.get_eq_some_iff (toPaths_wf t hw), mem_toPaths]
+
+/-- in the merged tree every object sits at the path obtained from its final (parent, name) chain:
+    a top-level object at `[name]`, any other object directly beneath the path of its final parent —
+    so the children of a moved folder are found beneath the folder's new path — and the path view
+    shows it there with its kind (content) -/
+theorem objMerge_paths (t : OTree) (hw : t.WF) (as bs : List OOp) (hc : CompatibleSeqs t as bs = true) :
+    ∀ o ∈ objMerge t as bs, ∃ p, pathOf (objMerge t as bs) o.id = some p ∧
+      (toPaths (objMerge t as bs)).get p = some o.kind ∧
+      (match o.parent with
+       | none => p = [o.name]
+       | some q => ∃ pq, pathOf (objMerge t as bs) q = some pq ∧ p = pq ++ [o.name]) := by
+  have hu := objMerge_WF t hw as bs hc
+  intro o ho
+  obtain ⟨p, hp⟩ := hu.rooted o ho
+  refine ⟨p, hp, toPaths_get hu ho hp, ?_⟩
+  obtain ⟨o', ho', h⟩ := pathOf_inv hp
+  rw [hu.get_of_mem ho] at ho'
+  cases ho'
+  rcases h with ⟨hpar, hpe⟩ | ⟨q, pq, hpar, hpq, hpe⟩
+  · rw [hpar]; exact hpe
+  · rw [hpar]; exact ⟨pq, hpq, hpe⟩
+
+/-- distinct objects never share a path in the merged tree (nothing is duplicated) -/
+theorem objMerge_paths_inj (t : OTree) (hw : t.WF) (as bs : List OOp) (hc : CompatibleSeqs t as bs = true)
+    (i j : Nat) (p : RPath) (hi : pathOf (objMerge t as bs) i = some p) (hj : pathOf (objMerge t as bs) j = some p) :
+    i = j :=
+  pathOf_inj (objMerge_WF t hw as bs hc) hi hj
+
+/-- a move of an object IS, in the path view, the subtree rename of `Spec/Sync.lean`: every object
+    beneath the moved one keeps its relative position beneath the new path, every other path is
+    unchanged -/
+theorem objMove_children_follow (t : OTree) (hw : t.WF) (i : Nat) (p : Option Nat) (n : String)
+    (hv : valid t (.move i p n) = true) :
+    ∃ po pn, pathOf t i = some po ∧ pathOf (applyOp t (.move i p n)) i = some pn ∧
+      (∀ j pj, pathOf t j = some pj → pathOf (applyOp t (.move i p n)) j = some (rebase po pn pj)) ∧
+      toPaths (applyOp t (.move i p n)) = CS.Spec.applyOp (toPaths t) (.rename po pn) := by
+  have hw' := hw.applyOp hv
+  simp only [valid, Bool.and_eq_true] at hv
+  obtain ⟨o, ho, hid⟩ := has_iff.mp hv.1.1.1
+  obtain ⟨po, hpo⟩ := hw.rooted o ho
+  rw [hid] at hpo
+  have hmem : setPlace i p n o ∈ applyOp t (.move i p n) := List.mem_map.mpr ⟨o, ho, rfl⟩
+  obtain ⟨pn, hpn⟩ := hw'.rooted _ hmem
+  rw [setPlace_id, hid] at hpn
+  exact ⟨po, pn, hpo, hpn, fun j pj hj => pathOf_move hw hpo hpn hj, toPaths_move hw hpo hpn⟩
+
+/-! ### the monitor's verdict -/
+
+/-- the verdict does not depend on the side order -/
+theorem objMergeOk_comm (t : OTree) (hw : t.WF) (as bs : List OOp) (l r : Tree) (hc : CompatibleSeqs t as bs = true) :
+    objMergeOk t as bs l r = objMergeOk t bs as l r := by
+  simp only [objMergeOk, objMerge_comm t hw as bs hc]
+
+/-- nor on the interleaving: replaying the real-time order of the user operations on the base tree
+    and projecting to paths is accepted on both sides -/
+theorem objMergeOk_of_interleaving (t : OTree) (hw : t.WF) (as bs m : List OOp) (hc : CompatibleSeqs t as bs = true)
+    (hm : Interleaving as bs m) :
+    objMergeOk t as bs (toPaths (applyOps t m)) (toPaths (applyOps t m)) = true := by
+  obtain ⟨_, he, hwf⟩ := objMerge_order_independent t hw as bs m hc hm
+  simp only [objMergeOk, ← he, Tree.sameAs_refl (toPaths_wf _ hwf), Bool.and_self]
+
+/-- meaning of the verdict on well-formed snapshots: both sides are exactly the path view of the merged object tree -/
+theorem objMergeOk_iff (t : OTree) (hw : t.WF) (as bs : List OOp) (l r : Tree) (hl : l.WF) (hr : r.WF)
+    (hc : CompatibleSeqs t as bs = true) :
+    objMergeOk t as bs l r = true ↔
+      (∀ p, l.get p = (toPaths (objMerge t as bs)).get p) ∧ (∀ p, r.get p = (toPaths (objMerge t as bs)).get p) := by
+  have hu := toPaths_wf _ (objMerge_WF t hw as bs hc)
+  simp only [objMergeOk, Bool.and_eq_true, sameAs_iff _ _ hl hu, sameAs_iff _ _ hr hu]
+
+/-- C04's verdict implies C01's -/
+theorem objMergeOk_implies_converged (t : OTree) (as bs : List OOp) (l r : Tree)
+    (h : objMergeOk t as bs l r = true) : converged l r = true := by
+  simp only [objMergeOk, Bool.and_eq_true] at h
+  apply sameAs_implies_converged
+  exact Tree.sameAs_trans h.1 (by rw [Tree.sameAs_comm]; exact h.2)
+
+/-- the decidable well-formedness test the monitor applies to the base tree is exact -/
+theorem wfB_sound (t : OTree) : wfB t = true ↔ t.WF := wfB_iff t
+
+/-- non-vacuity: LOCAL moves file a/f into folder d and deletes the now-empty folder a while REMOTE
+    renames d to d2.  The sequences are compatible; every interleaving gives the same object tree;
+    its path view is {d2, d2/f}; the verdict accepts it and rejects the tree in which a/f was put back. -/
+example :
+    let base : OTree := [⟨1, none, "a", .dir⟩, ⟨2, some 1, "f", .file 1⟩, ⟨3, none, "d", .dir⟩]
+    let opsL : List OOp := [.move 2 (some 3) "f", .delete 1]
+    let opsR : List OOp := [.move 3 none "d2"]
+    let good : Tree := [(["d2", "f"], .file 1), (["d2"], .dir)]
+    let bad : Tree := [(["d2"], .dir), (["a"], .dir), (["a", "f"], .file 1)]
+    wfB base = true ∧ CompatibleSeqs base opsL opsR = true ∧
+    applyOps base [.move 2 (some 3) "f", .move 3 none "d2", .delete 1] = objMerge base opsL opsR ∧
+    toPaths (objMerge base opsL opsR) = [(["d2", "f"], .file 1), (["d2"], .dir)] ∧
+    objMergeOk base opsL opsR good good = true ∧ objMergeOk base opsL opsR good bad = false := by
+  decide
+
+example : Interleaving [.move 2 (some 3) "f", .delete 1] [.move 3 none "d2"]
+    [.move 2 (some 3) "f", .move 3 none "d2", .delete 1] :=
+  .left _ (.right _ (.left _ .nil))
+
+end CS.Spec.Obj
+
